@@ -106,3 +106,16 @@ Proof.
   intros s Hs. assert (H : In s [0;1;2;3;4;5;6;7;8;9;10;11;12;13;14;15;16]) by (cbn; lia).
   cbn in H. repeat (destruct H as [<-|H]; [vm_compute; split; discriminate|]). destruct H.
 Qed.
+
+(* non-vacuity of the byte-level theorem: two restart intervals of one MCU row
+   (2 MCUs of one 16-bit component), differences that need stuffing *)
+Definition ex_ct : ctbl :=
+  match make_c_derived ex_bits ex_vals 16 with Some c => c | None => {| ehufco := []; ehufsi := [] |} end.
+Definition ex_ivs : list (list (list (list (Z * Z)))) :=
+  [[[[(0, -32768)]; [(0, 65535)]]]; [[[(0, -1)]; [(0, 255)]]]].
+Lemma ex_ivs_bytes :
+  ivs_ok 2 2 1 ex_ivs /\
+  enc_total (fun _ => ex_ct) 2 (0, 0) (2, 0) (concat ex_ivs) = Some [128; 95; 255; 208; 9; 31; 255; 0].
+Proof.
+  split; [|vm_compute; reflexivity]. cbn. unfold rows_ok_b. repeat split; try lia; repeat constructor.
+Qed.
